@@ -19,7 +19,7 @@ func init() {
 		Text: "quantize never touches the sign: every write of d.Negative in quantize is the copy of the operand's sign made by the initial Set",
 		Run:  ruleQuantizeKeepsSign})
 	register(&Rule{ID: "C14.R5", Min: 1,
-		Text: "the parser compares names after its own ASCII lower-casing only: no Unicode case folding (strings.EqualFold, unicode.*) anywhere on the parsing path",
+		Text: "the parser compares names after its own ASCII lower-casing only: no Unicode case mapping (strings.ToLower/ToUpper/EqualFold, unicode.*) anywhere on the parsing path — they map non-ASCII letters onto ASCII ones (U+0130 to i, U+017F to S)",
 		Run:  ruleParserNoCaseFolding})
 }
 
@@ -196,14 +196,14 @@ func ruleParserNoCaseFolding(w *World, r *RuleResult) {
 	for f := range reach {
 		for _, c := range callsIn(f) {
 			n := w.calleeName(c)
-			if n == "strings.EqualFold" || strings.HasPrefix(n, "unicode.") || n == "strings.ToUpper" || n == "strings.Title" || n == "strings.ToTitle" {
+			if n == "strings.EqualFold" || strings.HasPrefix(n, "unicode.") || n == "strings.ToUpper" || n == "strings.Title" || n == "strings.ToTitle" || n == "strings.ToLower" {
 				bad = append(bad, fmt.Sprintf("%s called in %s at %s", n, w.shortName(f), w.instrPos(c)))
 			}
 		}
 	}
 	key := "(*Decimal).setString | no Unicode case folding"
 	if len(bad) > 0 {
-		r.bad(key, w.pos(w.fn("(*Decimal).setString").Pos()), "Unicode simple case folding matches non-ASCII look-alikes (e.g. U+017F for 's'), widening the accepted language: "+strings.Join(uniqStrings(bad), "; "))
+		r.bad(key, w.pos(w.fn("(*Decimal).setString").Pos()), "Unicode case mapping turns non-ASCII look-alikes into the ASCII letters of the grammar (U+0130 lower-cases to 'i': \"İnf\" parses as Infinity; U+017F folds to 's'), widening the accepted language: "+strings.Join(uniqStrings(bad), "; "))
 	} else {
 		r.ok(key, w.pos(w.fn("(*Decimal).setString").Pos()), "names are compared with == / HasPrefix on the strings.ToLower'ed input only", true)
 	}
